@@ -5,7 +5,7 @@ package forwarder
 
 // C03: CONNECT tunnels are byte-transparent including early data and half-close, per direction.
 //
-//vf:assume C03: a CONNECT (from an HTTP/1.1 client, an HTTP/1.1 client sending Connection: close, or an HTTP/1.0 client) through the real connection loop to a scripted target connection; the client sends 0..4 (quick) / 0..8 (thorough) symbolic payload bytes in the same segment as the request head, the target sends 0..4/0..8 symbolic bytes; both sides then half-close; reads deliver 1 byte at a time, everything at once, or everything at once with io.EOF returned by the same Read
+//vf:assume C03: a CONNECT (from an HTTP/1.1 client, an HTTP/1.1 client sending Connection: close, an HTTP/1.0 client, or a client that puts a Content-Length field on its CONNECT) through the real connection loop to a scripted target connection; the client sends 0..4 (quick) / 0..8 (thorough) symbolic payload bytes in the same segment as the request head, the target sends 0..4/0..8 symbolic bytes; both sides then half-close; reads deliver 1 byte at a time, everything at once, or everything at once with io.EOF returned by the same Read
 //vf:assume C03: read-header-timeout unset or 1 minute, idle and whole-request read timeouts unset (the defaults): with a whole-request read timeout configured its deadline stays armed by that option's definition, which is outside
 //vf:assume C03: the two copy directions run one after the other (single schedule); simultaneous progress, FIN ordering on real sockets, the forced close after the grace period and real TLS are outside (SOCKS5: vfH_C03_socks5; https upstream under the transparent-TLS model: vfH_C03_upstream_tls)
 
@@ -49,7 +49,9 @@ func vfH_C03_tunnel() {
 	// one-shot clients (HTTP/1.0, or HTTP/1.1 with Connection: close) open tunnels too
 	head := []string{"CONNECT example.com:443 HTTP/1.1\r\nHost: example.com:443\r\n\r\n",
 		"CONNECT example.com:443 HTTP/1.1\r\nHost: example.com:443\r\nConnection: close\r\n\r\n",
-		"CONNECT example.com:443 HTTP/1.0\r\n\r\n"}[vfrt.Choice("client-kind", 3)]
+		"CONNECT example.com:443 HTTP/1.0\r\n\r\n",
+		// a CONNECT has no body: a Content-Length field on it is ignored, what follows the head is tunnel data
+		"CONNECT example.com:443 HTTP/1.1\r\nHost: example.com:443\r\nContent-Length: 2\r\n\r\n"}[vfrt.Choice("client-kind", 4)]
 	client := martian.NewVfConn(append([]byte(head), up...))
 	switch vfrt.Choice("read-shape", 3) {
 	case 1:
